@@ -17,7 +17,8 @@ type c04DN struct {
 	value   map[string]string
 }
 
-func c04Val(tag string) string { return string([]byte{vr.Byte2(tag, 'a', 'b')}) }
+// c04Val: a one-byte attribute value over {A, a, b}: equal, different, or differing in letter case only
+func c04Val(tag string) string { return string([]byte{vr.ByteIn(tag, "Aab")}) }
 
 // c04Subject draws a certificate subject: C/ST/O (mandatory for notation) optionally missing, other attributes optional.
 func c04Subject(tag string, allowBroken bool) (pkix.Name, c04DN, bool) {
